@@ -179,6 +179,18 @@ func (g *Grammar) Rule(name string) *Rule {
 	return g.rules[name]
 }
 
+// HasStatePred reports whether some code predicate of the grammar answers from the state
+// store (Expr.Lim > 0). Such a grammar is never parsed with Memoize: a memo hit does not run
+// state blocks again, so the repetition that goes with the predicate need not end
+// (KF-C16-MEMOZERO).
+func (g *Grammar) HasStatePred() bool {
+	found := false
+	for _, r := range g.Rules {
+		Walk(r.Expr, func(e *Expr) { found = found || e.Lim > 0 })
+	}
+	return found
+}
+
 // Reindex must be called after the rule list is changed.
 func (g *Grammar) Reindex() { g.rules = nil }
 
